@@ -1932,4 +1932,199 @@ theorem contracts_after_shift {o : Ops α} (h : OrdLawsOn o) (hs : ScaleLawsOn o
 theorem xBeqRefl : ∀ a, X.ops.isNaN a = false → X.ops.beq a a = true := by
   intro a; cases a <;> simp [X.ops, X.beq]
 
+/-! ### round 7: the max-shift's contract derived; four run contracts are theorems for /repo's code -/
+
+/-- subtraction of the maximum `m > -Inf` on non-NaN values -/
+structure ShiftLawsOn (o : Ops α) : Prop where
+  negInf_least : ∀ a, o.isNaN a = false → o.beq a o.negInf = false → o.lt o.negInf a = true
+  beq_nlt' : ∀ a b, o.beq a b = true → o.lt a b = false
+  beq_of_equiv : ∀ a m, o.isNaN a = false → o.isNaN m = false → o.lt a m = false → o.lt m a = false →
+    o.beq a m = true
+  sub_good : ∀ a m, o.isNaN a = false → o.isNaN m = false → o.beq a m = false → o.lt o.negInf m = true →
+    o.isNaN (o.sub a m) = false
+  sub_mono : ∀ a b m, o.isNaN a = false → o.isNaN b = false → o.isNaN m = false →
+    o.beq a m = false → o.beq b m = false → o.lt o.negInf m = true →
+    o.lt a b = false → o.lt (o.sub a m) (o.sub b m) = false
+  sub_nonpos : ∀ a m, o.isNaN a = false → o.isNaN m = false → o.beq a m = false → o.lt o.negInf m = true →
+    o.lt m a = false → o.lt o.zero (o.sub a m) = false
+  sub_negInf : ∀ v m, o.isNaN m = false → o.lt o.negInf m = true → o.beq v o.negInf = true →
+    o.beq v m = false ∧ o.beq (o.sub v m) o.negInf = true
+
+/-- the map `shiftMax` applies -/
+def shiftVal (o : Ops α) (m v : α) : α := if o.beq v m then o.zero else o.sub v m
+
+theorem shift_desc {o : Ops α} (h : OrdLawsOn o) (hs : ShiftLawsOn o) (m : α)
+    (hm : o.isNaN m = false) (hmi : o.lt o.negInf m = true) : ∀ (l : List α),
+    (∀ v ∈ l, o.isNaN v = false ∧ o.lt m v = false) → isDesc o l = true →
+    isDesc o (l.map (shiftVal o m)) = true := by
+  intro l
+  induction l with
+  | nil => intro _ _; rfl
+  | cons a rest ih =>
+    intro hl hd
+    cases rest with
+    | nil => rfl
+    | cons b rest' =>
+      simp only [isDesc, Bool.and_eq_true, Bool.not_eq_true'] at hd
+      simp only [List.map_cons, isDesc, Bool.and_eq_true, Bool.not_eq_true']
+      refine ⟨?_, ih (fun v hv => hl v (List.mem_cons_of_mem _ hv)) hd.2⟩
+      obtain ⟨ha, ham⟩ := hl a List.mem_cons_self
+      obtain ⟨hbg, hbm⟩ := hl b (List.mem_cons_of_mem _ List.mem_cons_self)
+      unfold shiftVal
+      cases hea : o.beq a m with
+      | true =>
+        cases heb : o.beq b m with
+        | true => simp only [if_true]; exact h.irrefl _ h.zero
+        | false =>
+          simp only [if_true, Bool.false_eq_true, if_false]
+          exact hs.sub_nonpos b m hbg hm heb hmi hbm
+      | false =>
+        cases heb : o.beq b m with
+        | true =>
+          -- impossible: a ≥ b ≈ m and a ≤ m force a == m
+          exfalso
+          have hbm' : o.lt b m = false := hs.beq_nlt' b m heb
+          have ham' : o.lt a m = false := by
+            cases hv : o.lt a m with
+            | false => rfl
+            | true =>
+              rcases h.cotrans a b m ha hbg hm hv with h1 | h1
+              · rw [hd.1] at h1; cases h1
+              · rw [hbm'] at h1; cases h1
+          have := hs.beq_of_equiv a m ha hm ham' ham
+          rw [hea] at this; cases this
+        | false =>
+          simp only [Bool.false_eq_true, if_false]
+          exact hs.sub_mono a b m ha hbg hm hea heb hmi hd.1
+
+/-- **the max-shift establishes its own contract**: for a descending NaN-free list whose head is not
+    `-Inf`, `shiftMax` returns a list that is NaN-free, still descending and keeps `-Inf` (`scaleOK`) -/
+theorem shift_contract_of_laws {o : Ops α} (h : OrdLawsOn o) (hb : BeqLawOn o) (hs : ShiftLawsOn o)
+    (t0 : Tok α) (rest : List (Tok α))
+    (hg : ∀ v ∈ (t0 :: rest).map (·.val), o.isNaN v = false)
+    (hd : isDesc o ((t0 :: rest).map (·.val)) = true) (hne : o.beq t0.val o.negInf = false) :
+    ∃ L1, shiftMax o (t0 :: rest) = .ok L1 ∧
+      L1.map (·.val) = ((t0 :: rest).map (·.val)).map (shiftVal o t0.val) ∧
+      (∀ v ∈ L1.map (·.val), o.isNaN v = false) ∧
+      scaleOK o ((t0 :: rest).map (·.val)) (L1.map (·.val)) = true := by
+  have hm : o.isNaN t0.val = false := hg _ (by simp)
+  have hmi := hs.negInf_least t0.val hm hne
+  have hmax := isDesc_head_max h (rest.map (·.val)) t0.val (by simpa using hg) (by simpa using hd)
+  have hall : ∀ v ∈ (t0 :: rest).map (·.val), o.isNaN v = false ∧ o.lt t0.val v = false :=
+    fun v hv => ⟨hg v hv, hmax v (by simpa using hv)⟩
+  let L1 : List (Tok α) := (t0 :: rest).map fun t =>
+    (⟨t.id, if o.beq t.val t0.val then o.zero else o.sub t.val t0.val⟩ : Tok α)
+  have hL1 : shiftMax o (t0 :: rest) = .ok L1 := by
+    simp only [shiftMax, hne, Bool.false_eq_true, if_false]; rfl
+  have e : L1.map (·.val) = ((t0 :: rest).map (·.val)).map (shiftVal o t0.val) := by
+    simp only [L1, List.map_map]
+    apply List.map_congr_left
+    intro t _
+    rfl
+  refine ⟨L1, hL1, e, ?_, ?_⟩
+  · rw [e]
+    intro v hv
+    obtain ⟨a, ha, rfl⟩ := List.mem_map.1 hv
+    have hag := (hall a ha).1
+    unfold shiftVal
+    cases he : o.beq a t0.val with
+    | true => simpa using h.zero
+    | false => simpa using hs.sub_good a t0.val hag hm he hmi
+  · rw [e]
+    unfold scaleOK
+    simp only [List.length_map, beq_self_eq_true, Bool.true_and, Bool.and_eq_true]
+    refine ⟨shift_desc h hs t0.val hm hmi _ hall hd, ?_⟩
+    rw [List.all_eq_true]
+    intro x hx
+    generalize (t0 :: rest).map (·.val) = vs at hx
+    induction vs with
+    | nil => simp at hx
+    | cons a tl ih =>
+      simp only [List.map_cons, List.zipWith_cons_cons, List.mem_cons] at hx
+      rcases hx with rfl | hx
+      · cases hbq : o.beq a o.negInf with
+        | false => simp
+        | true =>
+          obtain ⟨h1, h2⟩ := hs.sub_negInf a t0.val hm hmi hbq
+          simp [shiftVal, h1, h2]
+      · exact ih hx
+
+theorem xShiftLawsOn : ShiftLawsOn X.ops where
+  negInf_least := by intro a; cases a <;> simp [X.ops, X.beq, X.lt]
+  beq_nlt' := by intro a b; cases a <;> cases b <;> simp [X.ops, X.beq, X.lt] <;> omega
+  beq_of_equiv := by intro a m; cases a <;> cases m <;> simp [X.ops, X.beq, X.lt] <;> omega
+  sub_good := by intro a m; cases a <;> cases m <;> simp [X.ops, X.beq, X.lt, X.add, X.neg]
+  sub_mono := by
+    intro a b m
+    cases a <;> cases b <;> cases m <;> simp [X.ops, X.beq, X.lt, X.add, X.neg] <;> omega
+  sub_nonpos := by
+    intro a m
+    cases a <;> cases m <;> simp [X.ops, X.beq, X.lt, X.add, X.neg] <;> omega
+  sub_negInf := by
+    intro v m
+    cases v <;> cases m <;> simp [X.ops, X.beq, X.lt, X.add, X.neg]
+
+
+theorem isDesc_of_pairwise (o : Ops α) : ∀ (l : List (Tok α)),
+    l.Pairwise (fun a b => o.lt a.val b.val = false) → isDesc o (l.map (·.val)) = true := by
+  intro l
+  induction l with
+  | nil => intro _; rfl
+  | cons a rest ih =>
+    intro hp
+    cases rest with
+    | nil => rfl
+    | cons b rest' =>
+      rw [List.pairwise_cons] at hp
+      simp only [List.map_cons, isDesc, Bool.and_eq_true, Bool.not_eq_true']
+      exact ⟨hp.1 b List.mem_cons_self, ih hp.2⟩
+
+/-- **four of the run contracts are theorems for the code in /repo**: for NaN-free logits and a finite
+    positive `max(temp, 1e-7)`, whenever the max-shift succeeds on `topK`'s output, its result is
+    NaN-free and satisfies the shift's contract, the guard `guardOK` and the `temperature` stage's
+    contract — derived from `topK_isTopK_on` (the output is descending) and the named IEEE laws
+    `ShiftLawsOn`, `ScaleLawsOn` (instances on the carrier with NaN: `xShiftLawsOn`, `xScaleLawsOn`).
+    What remains a per-run contract in `sample_admissible_fixed_on` is `softmaxOK` and `runGood`. -/
+theorem shift_scale_contracts_of_laws {o : Ops α} (h : OrdLawsOn o) (hb : BeqLawOn o) (hs : ShiftLawsOn o)
+    (hsc : ScaleLawsOn o) (hrefl : ∀ a, o.isNaN a = false → o.beq a a = true)
+    (P : Params α) (logits : List α) (hne : logits ≠ []) (hn : noNaN o logits = true)
+    (ht : posFinite o (fmax o P.temp o.tempFloor))
+    (L1 : List (Tok α)) (hsm : shiftMax o (topK o P.topK (mkTokens logits)) = .ok L1) :
+    (∀ v ∈ L1.map (·.val), o.isNaN v = false) ∧
+    scaleOK o ((topK o P.topK (mkTokens logits)).map (·.val)) (L1.map (·.val)) = true ∧
+    guardOK o (scaledOf o P L1) = true ∧
+    scaleOK o (L1.map (·.val)) (scaledOf o P L1) = true := by
+  have hgl := goodL_mkTokens hn
+  have hK := topK_isTopK_on h P.topK (mkTokens logits) hgl
+  have hts : mkTokens logits ≠ [] := by
+    cases logits with
+    | nil => exact absurd rfl hne
+    | cons v vs => simp [mkTokens, mkTokensFrom]
+  cases hk : topK o P.topK (mkTokens logits) with
+  | nil => exact (topK_ne_nil_of_isTopK hts hK hk).elim
+  | cons t0 rest =>
+    rw [hk] at hsm hK
+    have hg : ∀ v ∈ (t0 :: rest).map (·.val), o.isNaN v = false := by
+      intro v hv
+      obtain ⟨t, ht', rfl⟩ := List.mem_map.1 hv
+      exact hgl t (topK_mem o P.topK _ t (by rw [hk]; exact ht'))
+    have hd := isDesc_of_pairwise o (t0 :: rest) hK.desc
+    have hne' : o.beq t0.val o.negInf = false := by
+      cases hb' : o.beq t0.val o.negInf with
+      | false => rfl
+      | true => simp [shiftMax, hb'] at hsm
+    obtain ⟨L1', hs1, _, hgood, hshift⟩ := shift_contract_of_laws h hb hs t0 rest hg hd hne'
+    rw [hsm] at hs1
+    injection hs1 with hs1
+    subst hs1
+    obtain ⟨c1, c2, _⟩ := contracts_after_shift h hsc hrefl P t0 rest L1 hsm (hg _ (by simp)) hgood hshift ht
+    exact ⟨hgood, hshift, c1, c2⟩
+
+/-- instantiation on the carrier with NaN: the laws hold there, and the derived contracts are the ones
+    `decide` finds on a concrete run (former F18 input, heap branch) -/
+example : guardOK X.ops (scaledOf X.ops ⟨.fin 1, 1, .fin 1, .fin 0, false⟩ [⟨0, .fin 0⟩]) = true :=
+  (shift_scale_contracts_of_laws xLawsOn xBeqLawOn xShiftLawsOn xScaleLawsOn xBeqRefl
+    ⟨.fin 1, 1, .fin 1, .fin 0, false⟩ [X.pinf, .fin 0] (by simp) (by decide)
+    ⟨by decide, by decide, by decide⟩ [⟨0, .fin 0⟩] (by rfl)).2.2.1
+
 end OllamaVerif.C18
